@@ -13,8 +13,8 @@ import (
 
 func init() {
 	register("C02", &propDef{
-		Run: checkC02,
-		Explanation: "Static decision of the structural clauses of C02 in the input proxy (the unique function receiving from Broker.ich): (1) it is the only receive on any chan string of the module, so no second consumer can create gaps; (2) on every path from the 'line received' edge back to the next receive the line is written to the stream and then flushed — the flush function is FlushError when the writer has it, http.Flusher.Flush only when it has not, and the no-op only when it has neither; (3) the bytes written are the received line followed by exactly one newline, written whole; (4) a write or flush error leaves the loop (the receive is unreachable from the error edges), and the cancellation arm consumes nothing; (5) nothing is handed to another goroutine between receive and write; (6) Ctrl+I's ChanWriter sends its whole argument as exactly one channel entry and insert writes the payload with one Write. FIFO order of Go channels and the transport's flush are assumed.",
+		Run:         checkC02,
+		Explanation: "Static decision of the structural clauses of C02 in the input proxy (the unique function receiving from Broker.ich): (1) it is the only receive on any chan string of the module, so no second consumer can create gaps; (2) on every path from the 'line received' edge back to the next receive the line is written to the stream and then flushed — the flush function is FlushError when the writer has it, http.Flusher.Flush only when it has not, and the no-op only when it has neither; (3) the bytes written are the received line followed by exactly one newline, written whole; (4) a write or flush error leaves the loop (the receive is unreachable from the error edges), and the cancellation arm consumes nothing; (5) nothing is handed to another goroutine between receive and write; (6) Ctrl+I's ChanWriter sends its whole argument as exactly one channel entry and insert writes the payload with one Write. FIFO order of Go channels and the transport's flush are assumed. Also: the writer the handlers hand to the broker is the http.ResponseWriter itself or has FlushError in its method set; insert hands the generator's whole payload to exactly one Write call (io.Copy and the like are refuted).",
 		Assumptions: []string{"Go channels are FIFO", "FlushError/Flush of the real ResponseWriter push buffered bytes to the connection"},
 	})
 }
